@@ -59,6 +59,11 @@ theorem chainLimit (top maxLen : Nat) (h : Gen.chainTooLong (top + 1) maxLen = f
   unfold Gen.chainTooLong at h; unfold Gen.liveChainTooLong
   simp at h ⊢; omega
 
+/-- `Start` refuses more addresses than the replication factor — the test of `Ctl.stepStart`
+    (for the configured factors the model covers, `rf ≥ 1`) -/
+theorem startOverRF (n rf : Nat) (h : 1 ≤ rf) : Gen.startOverRF n rf = decide (n > rf) := by
+  unfold Gen.startOverRF; simp; omega
+
 /-- every action a handler is routed for appears in some state's table, and conversely every
     action a state offers is routed (so an offered action is never a dead link) -/
 theorem routed_offered :
